@@ -337,7 +337,8 @@ func (rt *runtime) cmplEvaluateNodeSwitchStatement(node *nodeSwitchStatement) Va
 	labels := append(rt.labels, "") //nolint:gocritic
 	rt.labels = nil
 
-	discriminantResult := rt.cmplEvaluateNodeExpression(node.discriminant)
+	// GetValue once (ECMA 262 12.11): the case expressions may change the variable.
+	discriminantResult := rt.cmplEvaluateNodeExpression(node.discriminant).resolve()
 	target := node.defaultIdx
 
 	for index, clause := range node.body {
